@@ -35,7 +35,7 @@ REFINED = [
     "never a target), into_sign_typed(209); convert.rs as_ibig/as_ubig(563,695) as identity moves",
     "shift.rs shr_in_place_one_word(57); primitive.rs lowest_dword(66) highest_dword(82) split_hi_word(96): per-block bounds "
     "obligations with and without debug assertions + counterexamples showing the caller-side hypothesis is needed",
-    "storage skeletons of UBig + - * << >> in all ownership forms (add_ops.rs/mul_ops.rs/shift_ops.rs mod repr): exact "
+    "storage skeletons of UBig + - * / % << >> in all ownership forms (add_ops.rs/mul_ops.rs/div_ops.rs/shift_ops.rs mod repr): exact "
     "sequence of allocate/into()/ensure_capacity/push*/erase_front/from_buffer/drops, kernels abstracted to one overwrite",
     "capacity policy default_capacity / max_compact_capacity (regenerated from source, Tie A)",
     "memory.rs: try_find_memory_for_slice(165) allocate_slice_initialize(155) and the element writes (86,104,129,135) — "
@@ -46,7 +46,8 @@ FRONTIER = [
     "buffer.rs:429), unsafe impl Send/Sync (buffer.rs:35,38; repr.rs:62,65), memory.rs MemoryAllocation::new/Drop (38-43,68: "
     "alloc/dealloc of the scratch block) and Memory's Debug offset_from(27)",
     "NOT modelled: arch/*/add.rs intrinsics, fmt/digit_writer.rs (exercised by Miri histories only)",
-    "arithmetic skeletons: div/rem, bit operations, gcd, pow, the sqr() method and IBig sign glue are "
+    "arithmetic skeletons: div/rem with a divide-and-conquer scratch block (rhs > 32 words and lhs-rhs > 32 words), div_rem, bit "
+    "operations, gcd, pow, the sqr() method and IBig sign glue are "
     "NOT mirrored op by op; they are covered by the general theorem only through their final Repr::from_buffer / from_dword "
     "(any history of Buffer ops followed by from_buffer is canonical) and by the value-level exploration",
     "Rust-level UB that is not a ledger fact (aliasing/provenance, transmute validity, alignment, reads of uninitialised "
@@ -79,7 +80,7 @@ EXPLANATION = ("PROVED (Lean, all histories by induction over the op list, all M
                "leaves an empty ledger (no_leak); from_buffer canonical incl. compactness; clone_from equal/canonical/independent "
                "for all size relations; ones canonical; capacity policy chain on the regenerated formulas; one obligation per "
                "modelled unsafe block (unsafe_<file>_<line>); bump-allocator slices aligned, inside, pairwise disjoint. "
-               "static-backed values read-only; shift.rs/primitive.rs block obligations; every UBig + - * << >> form is a history over the "
+               "static-backed values read-only; shift.rs/primitive.rs block obligations; every UBig + - * / % << >> form is a history over the "
                "proved op alphabet, so canonical results incl. the compactness bound hold after arithmetic whatever the kernels write "
                "(arithmetic_histories_keep_invariant, invariant_says_canonical). "
                "VALIDATED by correspondence: mem.buf traces (state + allocator event stream, exact), mem.arith (public op vs storage "
@@ -844,6 +845,12 @@ def arith_cases(rng, tier):
                     for (x, y) in ((max(a, b), min(a, b)), (a, a), (a, max(a - 1, 0)), (a, max(a - (B - 1), 0)), (min(a, b), max(a, b))):
                         if rng.random() < (0.5 if tier == "quick" else 1.0):
                             yield Case("mem.arith", ["sub", f, hx(x), hx(y)])
+                    if not (lb > 32 and la - lb > 32):     # sizes without the divide-and-conquer scratch block
+                        bb = b if rng.random() < 0.8 or not lb else 1 << (64 * lb - rng.choice([1, 7, 64]))
+                        yield Case("mem.arith", ["div", f, hx(a), hx(bb)])
+                        yield Case("mem.arith", ["rem", f, hx(a), hx(bb)])
+                        if la >= lb and lb and rng.random() < 0.3:
+                            yield Case("mem.arith", [rng.choice(["div", "rem"]), f, hx(a), hx(a >> rng.choice([0, 1, 64]))])
                     if la + lb <= 70:
                         yield Case("mem.arith", ["mul", f, hx(a), hx(b)])
                         if rng.random() < 0.15:
